@@ -65,7 +65,10 @@ def apply_pre_grads(world, pre):
     for name, vals in pre.items():
         if name in world.t and world.t[name].is_leaf and world.t[name].requires_grad:
             x = world.t[name]
-            x.grad = torch.tensor(vals, dtype=world.dtype).reshape(x.shape).clone()
+            g = torch.tensor(vals, dtype=world.dtype).reshape(x.shape).clone()
+            if g.ndim >= 2 and (len(vals) + int(abs(vals[0]) * 8)) % 3 == 0:
+                g = g.transpose(0, -1).contiguous().transpose(0, -1)  # a non-contiguous pre-existing .grad
+            x.grad = g
             n += 1
     return n
 
